@@ -520,6 +520,12 @@ def near_tie_case(d):
     Av = X + Bv // 2 + d.int(1, 4)
     m1, m2 = d.sample(range(1, 7), 2)
     ballots = [[m1, [[A], [C]]], [m2, [[A], [Dd]]], [Av - m1 - m2, [[A], [B]]], [Bv, [[B]]], [X, [[C]]], [X, [[Dd]]]]
+    if nc == 5 and d.p(70):
+        # a fifth candidate without first preferences gets a sliver of the surplus: excluded while holding a tally that is
+        # not zero but may lie below a guarded tolerance
+        m3 = d.int(1, min(3, Av - m1 - m2 - 1))
+        ballots[2][0] -= m3
+        ballots.append([m3, [[A], [ids[4]]]])
     if d.p(40):
         ballots = d.perm(ballots)
     return dict(ncand=nc, nseats=2, withdrawn=[], undeclared=[], tie=d.perm(range(1, nc + 1)), ballots=ballots, title='T', names=None,
